@@ -1,7 +1,9 @@
 #!/usr/bin/env python3
 """Parallel evaluation of candidate changes on private copies of /repo and /verif (the real trees stay free).
 
-usage: tools/eval_par.py [--workers N] [--benign] [--keep-as PREFIX] <name>=<dir> ...
+usage: tools/eval_par.py [--workers N] [--benign] <name>=<dir> ...
+       tools/eval_par.py [--workers N] --rerun [--benign] [names...]   re-runs every quick check against the kept changes
+                         (/verif/seeded/* or /verif/benign/*) on private copies and refreshes their meta.json (+ RESULTS.md)
   <dir> holds patch.diff (+ demo.rs, NOTES.md for seeded changes). <name> is the directory name under
   /verif/seeded (or /verif/benign with --benign) the change is kept as when it qualifies.
 
@@ -15,14 +17,26 @@ props = {json.loads(l)['id']: json.loads(l) for l in open(os.path.join(VER, 'pro
 args = sys.argv[1:]
 W = 4
 BENIGN = '--benign' in args
+RERUN = '--rerun' in args
 if '--workers' in args:
     i = args.index('--workers'); W = int(args[i + 1]); del args[i:i + 2]
 args = [a for a in args if not a.startswith('--')]
 jobs = queue.Queue()
-for a in args:
-    name, d = a.split('=', 1)
-    jobs.put((name, d))
-W = min(W, jobs.qsize())
+if RERUN:
+    import glob
+    base = os.path.join(VER, 'benign' if BENIGN else 'seeded')
+    for d in sorted(glob.glob(os.path.join(base, '*'))):
+        name = os.path.basename(d)
+        if not os.path.exists(os.path.join(d, 'patch.diff')):
+            continue
+        if args and name not in args and name.split('-')[0] not in args:
+            continue
+        jobs.put((name, d))
+else:
+    for a in args:
+        name, d = a.split('=', 1)
+        jobs.put((name, d))
+W = max(1, min(W, jobs.qsize()))
 lock = threading.Lock()
 
 def sh(cmd, **kw):
@@ -54,7 +68,7 @@ def evaluate(S, name, d):
     res = {'name': name}
     sh(f'cd {R} && git checkout -q -- . && git clean -fdq -e Cargo.lock')
     filt = '| grep -E "^test result|error\\[|error:|FAILED|panicked" | head -8'
-    if not BENIGN:
+    if not BENIGN and not RERUN:
         first = open(os.path.join(d, 'demo.rs')).readline()
         m = re.search(r'[a-z_]+/tests/[A-Za-z0-9_]+\.rs', first)
         demo_path = m.group(0) if m else 'renet/tests/seeded_demo.rs'
@@ -68,14 +82,17 @@ def evaluate(S, name, d):
     if r.returncode != 0:
         res['error'] = 'PATCH DOES NOT APPLY: ' + r.stderr[:300]
         return res
-    if not BENIGN:
+    if not BENIGN and not RERUN:
         o = sh(f'cd {R} && cargo test -p {crate} --test {tname} --offline 2>&1 {filt}', env=env).stdout
         res['demo_mut_fails'] = 'FAILED' in o or 'error' in o
         res['demo_mut_out'] = o
         os.remove(os.path.join(R, demo_path))
-    o = sh(f'cd {R} && cargo test -p renet -p renetcode -p renet_netcode -p renet_visualizer --offline 2>&1 | grep -E "^test result|error\\[|FAILED"', env=env).stdout
-    res['suite_ok'] = 'FAILED' not in o and 'error[' not in o and o.count('test result: ok') >= 6
-    res['suite_out'] = o
+    if RERUN:
+        res['suite_ok'] = True
+    else:
+        o = sh(f'cd {R} && cargo test -p renet -p renetcode -p renet_netcode -p renet_visualizer --offline 2>&1 | grep -E "^test result|error\\[|FAILED"', env=env).stdout
+        res['suite_ok'] = 'FAILED' not in o and 'error[' not in o and o.count('test result: ok') >= 6
+        res['suite_out'] = o
     env2 = dict(os.environ, VERIF_SCRATCH=f'{S}/scratch')
     env2.pop('CARGO_TARGET_DIR', None)
     out = sh(f'{S}/verif/tools/run_all.sh quick', env=env2).stdout
@@ -90,7 +107,22 @@ def evaluate(S, name, d):
     sh(f'cd {R} && git checkout -q -- . && git clean -fdq -e Cargo.lock')
     return res
 
+def refresh(name, d, res):
+    mp = os.path.join(d, 'meta.json')
+    meta = json.load(open(mp))
+    if BENIGN:
+        meta['quick_checks_raising_an_alarm'] = res['caught']
+        meta['checks_with_machinery_exit'] = res['machinery']
+        meta['harness_build_failed'] = res['build_failed']
+    else:
+        meta['quick_checks_reporting_a_violation'] = res['caught']
+        meta['caught_by_own_property_check'] = meta['property'] in res['caught']
+        meta['checks_ending_with_a_machinery_exit'] = res['machinery']
+    json.dump(meta, open(mp, 'w'), indent=1)
+
 def keep(name, d, res):
+    if RERUN:
+        return refresh(name, d, res)
     if BENIGN:
         dst = os.path.join(VER, 'benign', name)
         os.makedirs(dst, exist_ok=True)
@@ -133,6 +165,10 @@ def worker(k):
         with lock:
             if 'error' in res:
                 print(f'{name}: ERROR {res["error"]}', flush=True)
+            elif RERUN and not BENIGN:
+                own = json.load(open(os.path.join(d, 'meta.json')))['property']
+                print(f'{name}: caught_by={sorted(res["caught"])} own={"yes" if own in res["caught"] else "NO"} machinery={res["machinery"]} build_failed={res["build_failed"]}', flush=True)
+                keep(name, d, res)
             elif BENIGN:
                 print(f'{name}: suite_ok={res["suite_ok"]} alarms={res["caught"]} machinery={res["machinery"]} build_failed={res["build_failed"]}', flush=True)
                 keep(name, d, res)
